@@ -511,6 +511,10 @@ _C15 = [
      'params': {'start': 'A', 'stop': 'A', 'count': 'Count', 'factor': 'A', 'jitter': 'A'}, 'result': 'A',
      'gen_file': 'iterutils_backoff', 'translator': 'py2lean_c15', 'raises': True,
      'tie_theorem': 'C15.src_backoff_iter_eq_model'},
+    {'module': 'boltons.iterutils', 'qualname': 'backoff', 'lean_name': 'backoff', 'kind': 'function',
+     'params': {'start': 'A', 'stop': 'A', 'count': 'Count', 'factor': 'A', 'jitter': 'A'}, 'result': 'ListA',
+     'gen_file': 'iterutils_backoff', 'translator': 'py2lean_c15', 'raises': True,
+     'tie_theorem': 'C15.src_backoff_eq_model'},
 ]
 
 SPECS = {
